@@ -17,8 +17,8 @@ using namespace vf;
 
 struct FOp { int kind = 0; int a = 0, b = 0; };
 struct Case { std::string file; int song_before = -1000, loop = 0, loop_count = -1, tempo_sel = 0; std::vector<FOp> ops; };
-enum { K_TICK, K_PLAY, K_SEEK, K_REWIND, K_QUERY, K_SELECT, K_TRACKOPT, K_CHANEN, K_META, K_TITLE, K_MARKER, K_DESCRIBE, K_REOPEN, K_REOPEN_TRUNC, K_NK };
-static const char *const kn[K_NK] = {"tick", "play", "seek", "rewind", "query", "select", "trackopt", "chanen", "meta", "title", "marker", "describe", "reopen", "reopentrunc"};
+enum { K_TICK, K_PLAY, K_SEEK, K_REWIND, K_QUERY, K_SELECT, K_TRACKOPT, K_CHANEN, K_META, K_TITLE, K_MARKER, K_DESCRIBE, K_REOPEN, K_REOPEN_TRUNC, K_VOLMODEL, K_NK };
+static const char *const kn[K_NK] = {"tick", "play", "seek", "rewind", "query", "select", "trackopt", "chanen", "meta", "title", "marker", "describe", "reopen", "reopentrunc", "volmodel"};
 
 static std::string ser(const Case &c) {
     std::ostringstream o; o << "c01 " << c.song_before << " " << c.loop << " " << c.loop_count << " " << c.tempo_sel << " " << c.ops.size() << "\n";
@@ -73,6 +73,7 @@ static void run(const Case &c, Info &info) {
         case K_TITLE: { size_t n = opn2_metaTrackTitleCount(d); const char *t = opn2_metaTrackTitle(d, (size_t)p.a % (n + 3)); VCHECK(t && strlen(t) < (1u << 20), "track title broken"); break; }
         case K_MARKER: { size_t n = opn2_metaMarkerCount(d); Opn2_MarkerEntry m = opn2_metaMarker(d, (size_t)p.a % (n + 3)); VCHECK(m.label && strlen(m.label) < (1u << 20), "marker label broken"); break; }
         case K_DESCRIBE: { char t[64], a[64]; opn2_describeChannels(d, t, a, sizeof t); break; }
+        case K_VOLMODEL: opn2_setVolumeRangeModel(d, p.a % 8); break;
         case K_REOPEN: load(c.file); break;
         case K_REOPEN_TRUNC: load(c.file.substr(0, c.file.size() * (size_t)(1 + p.a % 7) / 8)); break;
         }
